@@ -3,6 +3,7 @@
   the correspondence check.  Mirrors harness/cmd/cosedrive/ops*.go field for field.
 -/
 import CoseModel.Notation
+import CoseModel.Signers
 namespace CoseModel
 
 /-- `none` = the operation touches a construct outside the modelled region -/
@@ -49,10 +50,9 @@ def mkSigner (spec : String) : Option Signer :=
     (match parseSigned' rs, parseSigned' ss with
      | some r, some s =>
        let alg : Int := if cn = "p256" then -7 else if cn = "p384" then -35 else -36
-       some { alg := alg, sign := fun _ =>
-         match encodeECDSASignature (orderSize (curveBits' cn)) r s with
-         | some sig => .ok sig
-         | none => .err .other }
+       -- the library's own ECDSA signer (CoseModel/Signers.lean) over an opaque key that answers (r, s)
+       some (ecdsaSigner alg (fun c => .ok c)
+         { n := orderSize (curveBits' cn), sign := fun _ => .ok (r, s), verify := fun _ _ _ => false })
      | _, _ => none)
   | [kind, a, arg] =>
     (match parseIntStr a with
@@ -684,8 +684,13 @@ def opUse (a : List String) : M String :=
        (match kind with
         | "s1" => go (Sign1.unmarshal true data) (fun m => (Sign1.verify m none tVer).1)
                     (fun m => (Sign1.verify m (some [1]) tVer).1) .sign1
-        | "s1u" => go (Sign1.unmarshal false data) (fun m => (Sign1.verify m none tVer).1)
-                    (fun m => (Sign1.verify m (some [1]) tVer).1) .sign1
+        | "s1u" =>
+            -- plus: the untagged Go type itself is not a countersignature target
+            let cu := match (countersign0 tSig .unsupported none).1 with
+              | .err e => "err " ++ e.name | .ok _ => "ok" | _ => "panic"
+            (go (Sign1.unmarshal false data) (fun m => (Sign1.verify m none tVer).1)
+                    (fun m => (Sign1.verify m (some [1]) tVer).1) .sign1).map fun s =>
+              if s.startsWith "dec=ok" then s ++ " cu=" ++ cu ++ " cup=" ++ cu else s
         | "sm" => go (Sign.unmarshal data)
                     (fun m => (Sign.verify m none (m.sigs.map fun _ => tVer)).1)
                     (fun m => (Sign.verify m (some [1]) (m.sigs.map fun _ => tVer)).1) .sign
